@@ -29,6 +29,12 @@ checks = {
             TECH + " (seeded schedules; crash capture and client-side deframer)"),
     "C11": ("fault_enumeration", "end cause x end point x transport enumerated by seed, schedule sampled; after a drain backend and client connections, goroutines, registry and gauges must be released",
             TECH + " (connection faults at enumerated points; resource-release oracle after drain)"),
+    "C14": ("exploration", "NTLM message histories over several sessions (negotiate, right/wrong/unknown/empty-password authenticate, cross-session and replayed responses, garbage, clock jumps, auth-node restart) against the real verifier behind real gRPC; independent NTLMv2 computation as oracle",
+            TECH + " (seeded histories, clock jumps, node restart; per-session reference model with independent NTLMv2)"),
+    "C18": ("exploration", "the real main() is booted as a simulated node under drawn configurations (mechanism subsets, TLS, keys of length 0/1/31/32, file and environment); refusal lattice model; two-instance restart history for substituted keys",
+            TECH + " (simulated boot with exit capture, node restart; configuration model) - configuration dimension sampled"),
+    "C20": ("fault_enumeration", "KDC proxy requests (payload sizes, realms, malformed bodies) against KDC stubs with drawn fault behaviours per endpoint and protocol; relay faithfulness and bounded-time response",
+            TECH + " (KDC faults: refuse, close, partial, silent, keep-open; bounded-liveness and relay oracle)"),
     "C16": ("exploration", "every packet of simulated histories under drawn policies is decoded by an independent structural MS-TSGU decoder and compared with the reference machine's verdict and the configured policy",
             TECH + " (seeded histories and configurations; independent decoder + model)"),
     "C17": ("exploration", "one handshake per run over capability words x server settings x version bytes on real tunnels; negotiation model, tunnel must end on mismatch",
@@ -42,9 +48,6 @@ not_applicable = [
 pending = {
     "C05": "check under construction in this session (AUTH family)",
     "C10": "check under construction in this session (HOSTILE family)",
-    "C14": "check under construction in this session (AUTH family)",
-    "C18": "check under construction in this session (BOOT family)",
-    "C20": "check under construction in this session (KDC family)",
 }
 
 def main():
